@@ -70,6 +70,25 @@ func admissible(ws []regWrite) map[string]string {
 	return out
 }
 
+// mixedWithinSharedTxn: calls that share one transaction are not isolated from each other (they ARE
+// one transaction), so two of them that overlapped in time may each win one of the two fields.
+// The pair is accepted when s comes from one and tag from another admissible write, both issued
+// through the shared transaction and neither completed before the other started.
+func mixedWithinSharedTxn(ws []regWrite, adm map[string]string, got string) bool {
+	for _, a := range ws {
+		for _, b := range ws {
+			if !a.txn || !b.txn || adm[a.val] == "" || adm[b.val] == "" || hb(a, b) || hb(b, a) {
+				continue
+			}
+			as, bs := strings.SplitN(a.val, "|", 2), strings.SplitN(b.val, "|", 2)
+			if len(as) == 2 && len(bs) == 2 && as[0]+"|"+bs[1] == got {
+				return true
+			}
+		}
+	}
+	return false
+}
+
 func isWriteKind(k string) bool {
 	switch k {
 	case kUpdShared, kIncShared, kIncSharedC, kSetIShared, kCreate, kCreateC, kUpdOwn, kIncOwn, kDelOwn, kDelOwnC:
@@ -137,6 +156,12 @@ func (r *runner) evaluate() {
 	if c.P2P {
 		r.label("p2p")
 	}
+	if c.Burst > 0 {
+		r.label("merge-burst")
+		if c.Burst >= 12 {
+			r.label("merge-burst-12+")
+		}
+	}
 	if c.Branchable {
 		r.label("branchable")
 	}
@@ -171,7 +196,13 @@ func (r *runner) evaluate() {
 		doc := key[:strings.Index(key, "|")]
 		failedDoc[doc] = true
 		for _, f := range fl {
-			if strings.Contains(strings.ToLower(f), "transaction conflict") {
+			if c.Burst > 0 && doc == r.shared[0] && strings.Contains(strings.ToLower(f), "transaction conflict") {
+				// nothing but merges writes this document and the merge queue runs them one at a time:
+				// a conflict can only come from two merges of the document running together
+				r.fail(hx.Failf(sigBurstConflict,
+					"merge %s of a burst of %d merges for one document (no local writer, MaxTxnRetries=%d) was dropped with a conflict: %s; %d of the burst were dropped\n%s",
+					short(key), c.Burst, c.BurstRetries, f, len(r.merges.failures), r.history()))
+			} else if strings.Contains(strings.ToLower(f), "transaction conflict") {
 				// MaxTxnRetries exceeds the number of commits in the whole case, so the retry loop cannot
 				// have been exhausted by real conflicts
 				r.fail(hx.Failf("C16/merge-lost/conflict-although-retries-left",
@@ -277,7 +308,15 @@ func (r *runner) checkShared(d int, id string, row map[string]any, mergeFailed b
 		}
 	}
 	base := r.p0[d]
-	for k := 0; k < K; k++ {
+	burst := d == 0 && r.c.Burst > 0
+	if burst {
+		// every sibling of the burst was published and must be merged
+		K = len(r.burst)
+		for _, it := range r.burst {
+			base += it.delta
+		}
+	}
+	for k := 0; k < K && !burst; k++ {
 		base += r.chain[d][k].delta
 	}
 	var unc []int
@@ -357,14 +396,20 @@ func (r *runner) checkShared(d int, id string, row map[string]any, mergeFailed b
 			} else if got > hi {
 				kind = "excess-increment"
 			}
-			r.fail(hx.Failf("C16/accounting/counter/"+kind+"/"+qual,
+			sig := "C16/accounting/counter/" + kind + "/" + qual
+			if ok && len(unc) == 0 && r.explainedByOverlappingTxnIncrements(d, base, got) {
+				// the counter's read-modify-write is two store operations; the wrapper mutex covers each
+				// one, not the pair, and calls sharing a transaction do not conflict with each other
+				sig = sigTxnCounter
+			}
+			r.fail(hx.Failf(sig,
 				"shared[%d] %s: pn = %v, acknowledged increments (initial %d, merged chain commits 1..%d, %d calls with unknown outcome) give %v\n%s",
 				d, short(id), row["pn"], r.p0[d], K, len(unc), keysInt(sums), r.history()))
 		}
 	}
 	// registers
 	gotS := str(row["s"]) + "|" + str(row["tag"])
-	if adm := admissible(sw); adm[gotS] == "" {
+	if adm := admissible(sw); adm[gotS] == "" && !mixedWithinSharedTxn(sw, adm, gotS) {
 		r.fail(hx.Failf("C16/accounting/register/s-tag/"+qual,
 			"shared[%d] %s: (s,tag) = %s is not the value of an acknowledged write that no later acknowledged write replaced; admissible: %v\n%s",
 			d, short(id), gotS, adm, r.history()))
@@ -375,7 +420,7 @@ func (r *runner) checkShared(d int, id string, row map[string]any, mergeFailed b
 			"shared[%d] %s: i = %d is not the value of an acknowledged write that no later acknowledged write replaced; admissible: %v\n%s",
 			d, short(id), gi, adm, r.history()))
 	}
-	if gr, _ := num(row["r"]); gr != K {
+	if gr, _ := num(row["r"]); gr != K && !burst { // the siblings of a burst write r concurrently
 		r.fail(hx.Failf("C16/accounting/register/merged-remote-field/"+qual,
 			"shared[%d] %s: r = %v, the highest merged chain commit wrote %d\n%s", d, short(id), row["r"], K, r.history()))
 	}
@@ -469,6 +514,39 @@ func (r *runner) classifyCorruptedIndexMerge(key, doc, errText string) (sig, why
 		return "C16/merge-lost/corrupted-index/index-already-inconsistent-unexplained", "the index was already inconsistent for this document before the merge was published, and no listed cause explains it"
 	}
 	return "C16/merge-lost/corrupted-index/unexplained", "no local write overlapped the merge and no listed cause explains the inconsistent index"
+}
+
+// explainedByOverlappingTxnIncrements: the shared transaction committed, and the observed value is
+// the expected one minus the deltas of some increments that were issued through the shared
+// transaction while another write of the same document through it was in flight.
+func (r *runner) explainedByOverlappingTxnIncrements(d, want, got int) bool {
+	if !r.c.SharedTxn || r.commitStatus != stOK {
+		return false
+	}
+	var cand []int
+	for _, a := range r.calls {
+		if !a.Txn || a.Shared != d || a.Status != stOK || (a.Op.K != kIncShared && a.Op.K != kIncSharedC) {
+			continue
+		}
+		for _, b := range r.calls {
+			if b != a && b.G != a.G && b.Txn && b.Shared == d && isWriteKind(b.Op.K) && overlap(a.Start, a.End, b.Start, b.End) {
+				cand = append(cand, deltas[a.Op.V%len(deltas)])
+				break
+			}
+		}
+	}
+	if len(cand) == 0 || len(cand) > 400 {
+		return false
+	}
+	sums := map[int]bool{0: true}
+	for _, c := range cand {
+		next := map[int]bool{}
+		for s := range sums {
+			next[s], next[s+c] = true, true
+		}
+		sums = next
+	}
+	return sums[want-got]
 }
 
 func keysInt(m map[int]bool) []int {
